@@ -134,7 +134,9 @@ func genCase(rng *prng.R, idx int, reps int) caseSpec {
 	if c.family() == "zstdchunked" {
 		c.Level = rng.Pick(1, 2, 3)
 	}
-	c.Workers = rng.Pick(0, 1, 2, 4)
+	// WithParallelism: 0 = GOMAXPROCS sub-blobs per layer, each with compressors of its own
+	// (a zstd encoder allocates megabytes, which the -race build pays for per byte)
+	c.Workers = rng.Pick(1, 1, 1, 2, 2, 2, 4, 0)
 	c.Prio = -1
 	if rng.Chance(1, 2) {
 		c.Prio = rng.Intn(nMarkers)
